@@ -110,6 +110,40 @@ Theorem C12_reconnect_can_finish :
     reachable nconn ids init_state s -> status s k = false -> step nconn ids s (LReconnectDone k) <> None.
 Proof. exact reconnect_can_finish. Qed.
 
+(** An outage of any length does not disable the reconnection: the attempts of the
+    loop are independent (LReconnectFail carries nothing over), so after any number
+    of failed attempts and any waiting time the connection is still Connecting and
+    the successful attempt is still enabled. *)
+Theorem C12_reconnect_done_after_failed_attempts :
+  forall nconn ids ls s s' k,
+    reachable nconn ids init_state s -> status s k = false ->
+    (forall l, In l ls -> waiting_label k l) ->
+    exec nconn ids s ls = Some s' ->
+    status s' k = false /\ reachable nconn ids init_state s' /\ step nconn ids s' (LReconnectDone k) <> None.
+Proof. exact reconnect_done_after_failed_attempts. Qed.
+Print Assumptions C12_reconnect_done_after_failed_attempts.
+
+Theorem C12_reconnect_fail_enabled :
+  forall nconn ids s k,
+    reachable nconn ids init_state s -> status s k = false -> step nconn ids s (LReconnectFail k) = Some s.
+Proof. exact reconnect_fail_enabled. Qed.
+
+(** Why each attempt must have a deadline of its own (Proofs/ClientHistory.v, model
+    of the loop alone: seconds since its start, finished or not): with per-attempt
+    deadlines the first attempt that finds the server up ends the loop after any
+    history; with ONE deadline in front of the loop, after an outage of [deadline]
+    seconds no attempt ever succeeds although the server is up. *)
+Theorem C12_per_attempt_deadline_recovers :
+  forall deadline ls, done (lstep false deadline (lexec false deadline linit ls) (RAttempt true)) = true.
+Proof. exact per_attempt_deadline_recovers. Qed.
+
+Theorem C12_single_loop_deadline_refuted :
+  forall deadline ls,
+    let outage := flat_map (fun _ => [RAttempt false; RTick]) (seq 0 deadline) in
+    (forall l, In l ls -> l = RTick \/ l = RAttempt true) ->
+    done (lexec true deadline linit (outage ++ ls)) = false.
+Proof. exact single_loop_deadline_refuted. Qed.
+
 (** "later calls succeed": in every reachable state a new call whose round-robin
     connection is Connected completes with the answer the server sends for it on
     any healthy connection with an idle reader. *)
